@@ -125,6 +125,9 @@ def special_modules():
         M("SpSelfNamedMember", "  T ::= SEQUENCE { t T OPTIONAL, u U }\n  U ::= SEQUENCE { t T OPTIONAL }\n  V ::= SEQUENCE { v SEQUENCE { v SEQUENCE { v INTEGER } } }", "AUTOMATIC"),
         M("SpTypeNamesLikeSkeleton", "  Constr-TYPE ::= INTEGER\n  Asn-application ::= BOOLEAN\n  Per-support ::= SEQUENCE { a Constr-TYPE }"),
     ]
+    for m in ms:      # modules whose known defect shows under particular options only
+        if m["name"] in ("SpOfOfStruct", "SpOfStructOfStruct", "SpSameInner", "SpExt2", "SpNegDefault", "SpOfOf", "SpNestedAnon"):
+            m["all_optsets"] = True
     return ms
 
 
